@@ -54,8 +54,16 @@ class CallMixin(object):
                 return self.eval(fr.old_state_copy(), e.args[0])
             if n == 'implies':
                 c = self.truthy(st, self.eval(st, e.args[0]))
-                return self.branch(st, c, lambda s: V(mkB(self.truthy(s, self.eval(s, e.args[1]))), parse_spec('bool')),
-                                   lambda s: V(TRUE, parse_spec('bool')))
+
+                def conseq(s):
+                    saved = dict(s.vars)
+                    self.refine(s, e.args[0], True)
+                    try:
+                        return V(mkB(self.truthy(s, self.eval(s, e.args[1]))), parse_spec('bool'))
+                    finally:
+                        s.vars.clear()
+                        s.vars.update(saved)
+                return self.branch(st, c, conseq, lambda s: V(TRUE, parse_spec('bool')))
         fv = self.eval(st, e.func)
         args = []
         for a in e.args:
@@ -394,10 +402,13 @@ class CallMixin(object):
         if key in self._attr_cache:
             return self._attr_cache[key]
         res = False
+        from .model import SCHEMA
         try:
             inspect.getattr_static(c, name)
             res = True
         except AttributeError:
+            if any((k, name) in SCHEMA for k in c.__mro__):
+                res = True
             for k in c.__mro__:
                 init = vars(k).get('__init__')
                 if isinstance(init, types.FunctionType):
